@@ -1,11 +1,7 @@
+//! Generic parts only (reader, interpreter, values, generic runners). Everything that instantiates the interpreter for a concrete
+//! (input kind, error type) lives in the binaries (`src/bin/*.rs` include the per-property modules by path), so that a change in
+//! /repo recompiles only the binaries a check needs, in parallel.
 pub mod ast;
 pub mod build;
 pub mod run;
 pub mod val;
-pub mod hist;
-pub mod text;
-pub mod pratt;
-pub mod drops;
-pub mod deep;
-pub mod inputs;
-pub mod nested;
